@@ -15,7 +15,18 @@ package scen
 //     (the lookup succeeded, the operation was not cancelled);
 //   * content clauses (what a PUT_VALUE / ADD_PROVIDER message carries) apply to
 //     every message that reached the sender during the operation;
-//   * nothing is said about what an operation returns.
+//   * nothing is said about what an operation returns;
+//   * "failure of individual recipients never prevents delivery to the others"
+//     is also checked on the requests in flight: a PUT_VALUE / ADD_PROVIDER that
+//     reached the sender with a live context and is still parked there for a
+//     recipient the scenario would answer must not find its context cancelled
+//     (a) in the very step that delivered another recipient's failure, nor (b)
+//     while the operation is still running, the caller's context is live and no
+//     virtual time has passed since the request was handed over (so that no
+//     time-out of whatever length can have run out). See choose / checkInflight;
+//   * the host's addresses change between provides (with and without the
+//     address-update event); every ADD_PROVIDER is compared with the filter
+//     applied to the addresses the host had while that provide ran.
 
 import (
 	"bytes"
@@ -30,6 +41,7 @@ import (
 	dht "github.com/libp2p/go-libp2p-kad-dht"
 	pb "github.com/libp2p/go-libp2p-kad-dht/pb"
 	recpb "github.com/libp2p/go-libp2p-record/pb"
+	"github.com/libp2p/go-libp2p/core/event"
 	"github.com/libp2p/go-libp2p/core/host"
 	"github.com/libp2p/go-libp2p/core/peer"
 	"github.com/libp2p/go-libp2p/core/protocol"
@@ -48,7 +60,8 @@ import (
 func init() {
 	real := []string{"IpfsDHT.PutValue", "IpfsDHT.Provide/classicProvide", "optimisticProvide + netsize.Estimator", "SearchValue corrective puts (updatePeerValues)", "runLookupWithFollowup/query engine", "ProtocolMessenger.PutValue/PutProviderAddrs", "FilteredAddrs/addrFilter", "records.ValueStore", "records.ProviderManager", "lookup events"}
 	stub := []string{"host.Host/network (simhost)", "pb.MessageSender (level A, simnet.Sender behind a recording wrapper)", "remote peers (scripted)", "datastore (simds, recording)", "validator (harness rank validator)"}
-	recipFaults := []string{"fault_recipient_fail", "fault_recipient_hang", "fault_recipient_slow", "fault_dial_fail", "fault_rpc_error", "time_advance", "cancel_observed", "probe_term_completed", "probe_term_starvation"}
+	recipFaults := []string{"fault_recipient_fail", "fault_recipient_hang", "fault_recipient_slow", "fault_dial_fail", "fault_rpc_error", "time_advance", "cancel_observed", "probe_term_completed", "probe_term_starvation",
+		"probe_recipient_failed_while_others_inflight"}
 	reg := func(name string, weight int, run func(*sim.Sim), faults ...string) {
 		sim.Register(&sim.Scenario{Prop: "C06", Name: name, Weight: weight, Run: run, Real: real, Stub: stub,
 			Faults: append(append([]string{}, recipFaults...), faults...)})
@@ -57,9 +70,11 @@ func init() {
 		"fault_recipient_bad_echo", "probe_put_ok", "probe_put_refused_older", "probe_put_over_existing", "probe_put_lookup_failed",
 		"probe_recipient_failed_others_served", "probe_recipient_hung_others_served", "probe_followup_peer_in_R", "probe_R_smaller_than_K")
 	reg("provide-classic", 3, func(s *sim.Sim) { runC06Provide(s, false, false) },
+		"probe_addrs_changed_with_event", "probe_addrs_changed_silently", "probe_provide_after_addr_change",
 		"probe_provide_ok", "probe_all_addrs_filtered", "probe_filter_dropped_some", "probe_provide_deadline_ctx", "probe_provide_deadline_exceeded", "probe_provide_lookup_failed",
 		"probe_recipient_failed_others_served", "probe_recipient_hung_others_served", "probe_R_smaller_than_K")
 	reg("provide-optimistic", 3, func(s *sim.Sim) { runC06Provide(s, true, false) },
+		"probe_addrs_changed_with_event", "probe_addrs_changed_silently", "probe_provide_after_addr_change",
 		"probe_provide_ok", "probe_all_addrs_filtered", "probe_filter_dropped_some", "probe_estimator_ready", "probe_optimistic_fallback_classic",
 		"probe_optimistic_early_put", "probe_optimistic_extra_recipient", "probe_optimistic_lookup_stopped", "probe_term_stopped", "probe_optimistic_inflight_at_return",
 		"probe_recipient_failed_others_served", "probe_recipient_hung_others_served")
@@ -135,6 +150,19 @@ type c06World struct {
 
 	ticks   bool
 	opStart time.Duration // start of the operation being judged
+
+	// prefix of the rule ids of the in-flight clauses (pv, ap, cp, frt)
+	prefix string
+	// cur: the operation whose fan-out is being watched (until the next one starts)
+	cur *c06OpObs
+	// patience: a time-out per operation that the scenario configured through a
+	// documented option (fullrt.WithTimeoutPerOperation). No request of an
+	// operation may be given up earlier than this long after the operation
+	// started. 0: no such option exists (then only "no time at all has passed"
+	// is used, see checkInflight).
+	patience time.Duration
+	// lastFail: the PUT_VALUE / ADD_PROVIDER the step being executed failed
+	lastFail *simnet.RPC
 
 	// lookupDelay: a lookup request to this peer is answered no earlier than
 	// this long after it was sent (slow-lookup variant)
@@ -353,6 +381,7 @@ func (w *c06World) actions() []sim.Action {
 					switch {
 					case rc.Mode == c06RecipFail:
 						s.Count("fault_recipient_fail")
+						w.lastFail = r
 						s.Release(p, simnet.Reply{Err: errReqFailed})
 					case !r.WantResp:
 						if rc.Mode == c06RecipSlow {
@@ -367,7 +396,9 @@ func (w *c06World) actions() []sim.Action {
 							echo.Record = &recpb.Record{Key: r.Req.GetKey()}
 						}
 						if rc.Mode == c06RecipBadEcho {
+							// for the client this recipient failed ("value not put correctly")
 							s.Count("fault_recipient_bad_echo")
+							w.lastFail = r
 							echo.Record.Value = append([]byte("x"), echo.Record.Value...)
 						}
 						if rc.Mode == c06RecipSlow {
@@ -449,6 +480,132 @@ type c06OpObs struct {
 	startAt   time.Duration
 	deadline  time.Duration // 0: none
 	finished  func() bool
+	ctx       context.Context // the caller's context
+	end       func()          // cancels the caller's contexts (endOp)
+}
+
+// endOp cancels the contexts of the operation started last. This happens when
+// the next operation starts or the scenario ends, not when the operation
+// returns: requests that are still in flight then (optimistic provide,
+// corrective puts) keep a caller whose context is live, so that a cancellation
+// they observe cannot be the harness's own doing.
+func (w *c06World) endOp() {
+	if w.cur != nil && w.cur.end != nil {
+		w.cur.end()
+		w.cur.end = nil
+	}
+	w.cur = nil
+}
+
+// fanout returns the parked PUT_VALUE / ADD_PROVIDER requests of the current
+// operation that reached the sender with a live context, in canonical order.
+func (w *c06World) fanout() []*sim.Parked {
+	if w.cur == nil {
+		return nil
+	}
+	var out []*sim.Parked
+	for _, p := range w.s.ParkedKind("rpc") {
+		r, ok := p.Data.(*simnet.RPC)
+		if !ok || r.N < w.cur.base || !r.CtxLive {
+			continue
+		}
+		if t := r.Req.GetType(); t != pb.Message_PUT_VALUE && t != pb.Message_ADD_PROVIDER {
+			continue
+		}
+		out = append(out, p)
+	}
+	return out
+}
+
+// answers: the scenario would deliver the request to this recipient and answer
+// it (at once, late, or with a wrong echo) if it stayed in flight.
+func (w *c06World) answers(p peer.ID) bool {
+	m := w.recip[p].Mode
+	return m != c06RecipFail && m != c06RecipHang
+}
+
+// callerLive: the caller's context of the current operation is live and, if
+// it has a deadline, that deadline is still ahead.
+func (w *c06World) callerLive() bool {
+	ob := w.cur
+	if ob == nil || ob.ctx == nil || ob.ctx.Err() != nil {
+		return false
+	}
+	return ob.deadline == 0 || w.s.Now()-ob.startAt < ob.deadline
+}
+
+// choose lets the scheduler pick one action and then checks what the step did
+// to the requests that were in flight.
+//
+// <prefix>-cancelled-by-failure: the step delivered a failure (an error, or a
+// wrong echo) to one recipient of the current operation. A step runs no timer
+// and answers nothing else, so whatever changed is a consequence of that
+// failure. A request that was in flight with a live context for ANOTHER
+// recipient - one the scenario would answer - must not have had its context
+// cancelled by it. Judged while the caller's context is live and only when the
+// operation did not return within this very step (an operation that returns
+// may give up what it no longer waits for; fullrt does). It applies equally
+// before the operation returned and afterwards (optimistic provide and
+// corrective puts leave requests in flight).
+func (w *c06World) choose(acts []sim.Action) {
+	s, u := w.s, w.h.U
+	before := map[string]bool{}
+	for _, p := range w.fanout() {
+		if !p.Cancelled() {
+			before[p.ID] = true
+		}
+	}
+	doneBefore := w.cur != nil && w.cur.op != nil && w.cur.op.Done
+	w.lastFail = nil
+	s.Choose("next", acts)
+	if f := w.lastFail; f != nil && !s.Failed() && w.cur != nil && f.N >= w.cur.base && w.cur.op.Done == doneBefore && w.callerLive() {
+		others := 0
+		for _, p := range w.fanout() {
+			r := p.Data.(*simnet.RPC)
+			if !before[p.ID] || r.To == f.To || !w.answers(r.To) {
+				continue
+			}
+			others++
+			if p.Cancelled() {
+				s.Violate(w.prefix+"-cancelled-by-failure", "%s: the %s for %s was in flight with a live context; delivering the failure of recipient %s cancelled it (operation returned: %v, caller's context live, %v after the request was handed over)",
+					w.cur.name, r.Req.GetType(), u.Name(r.To), u.Name(f.To), doneBefore, s.Now()-r.SentAt)
+				return
+			}
+		}
+		if others > 0 {
+			s.Count("probe_recipient_failed_while_others_inflight")
+		}
+	}
+	w.checkInflight()
+}
+
+// checkInflight, at a quiescent point:
+//
+// <prefix>-inflight-cancelled: while the operation has not returned and the
+// caller's context is live, a request in flight for a recipient the scenario
+// would answer has a cancelled context although no time-out can have run out:
+// either no virtual time at all has passed since it was handed to the sender,
+// or (fullrt) less time has passed since the operation started than the
+// time-out per operation the scenario configured. The message cannot have
+// been delivered; "sends it to every peer" does not hold for that recipient
+// whatever the cause was.
+func (w *c06World) checkInflight() {
+	s, ob := w.s, w.cur
+	if s.Failed() || ob == nil || ob.op == nil || ob.op.Done || !w.callerLive() {
+		return
+	}
+	now := s.Now()
+	for _, p := range w.fanout() {
+		r := p.Data.(*simnet.RPC)
+		if !p.Cancelled() || !w.answers(r.To) {
+			continue
+		}
+		if now == r.SentAt || (w.patience > 0 && now-ob.startAt < w.patience) {
+			s.Violate(w.prefix+"-inflight-cancelled", "%s has not returned and the caller's context is live, yet the %s for %s, handed to the sender with a live context %v ago (operation started %v ago), has its context cancelled",
+				ob.name, r.Req.GetType(), w.h.U.Name(r.To), now-r.SentAt, now-ob.startAt)
+			return
+		}
+	}
 }
 
 // runOp starts f (with a context carrying a fresh lookup-event registration)
@@ -458,9 +615,10 @@ type c06OpObs struct {
 // The registration context is separate from the operation's context and is
 // never cancelled while events can still be published: an event channel whose
 // context is done drops events through a select the Go runtime resolves at
-// random (HARNESS pitfall 3).
+// random (HARNESS pitfall 3). Both stay live until endOp.
 func (w *c06World) runOp(name, lookupKey string, deadline time.Duration, f func(ctx context.Context) (any, error), finished func(*c06OpObs) bool) *c06OpObs {
 	s, h := w.s, w.h
+	w.endOp()
 	ob := &c06OpObs{name: name, lookupKey: lookupKey, base: len(h.Snd.Snapshot()), getBase: len(w.getReplies), startAt: s.Now(), deadline: deadline}
 	w.opStart = ob.startAt
 	w.mu.Lock()
@@ -495,15 +653,17 @@ func (w *c06World) runOp(name, lookupKey string, deadline time.Duration, f func(
 			s.Quiesce()
 		}
 	}
-	defer func() {
+	ob.ctx = opCtx
+	ob.end = func() {
 		drain()
 		opCancel()
 		evCancel()
 		s.Quiesce()
-	}()
+	}
 
 	s.Tracef("op %s", name)
 	ob.op = h.Ops.Go(s, name, func() (any, error) { return f(opCtx) })
+	w.cur = ob
 	s.Quiesce()
 	fin := func() bool {
 		if finished != nil {
@@ -514,6 +674,7 @@ func (w *c06World) runOp(name, lookupKey string, deadline time.Duration, f func(
 	idle := 0
 	for {
 		drain()
+		w.checkInflight()
 		if fin() || !s.Step() {
 			break
 		}
@@ -521,6 +682,7 @@ func (w *c06World) runOp(name, lookupKey string, deadline time.Duration, f func(
 			s.Sleep(time.Duration(1+s.Draw("tick-ms", 400)) * time.Millisecond)
 			s.Count("time_advance")
 			drain()
+			w.checkInflight()
 			if fin() {
 				break
 			}
@@ -543,7 +705,7 @@ func (w *c06World) runOp(name, lookupKey string, deadline time.Duration, f func(
 			continue
 		}
 		idle = 0
-		s.Choose("next", acts)
+		w.choose(acts)
 	}
 	drain()
 	if s.Failed() {
@@ -660,7 +822,7 @@ func (w *c06World) finishInflight() {
 			continue
 		}
 		idle = 0
-		s.Choose("next", acts)
+		w.choose(acts)
 	}
 }
 
@@ -744,8 +906,10 @@ func runC06PutValue(s *sim.Sim) {
 	s.MaxSteps = 600
 	c := c06GenCfg(s, 1, 6)
 	w := c06Build(s, c)
+	w.prefix = "pv"
 	defer s.Finish()
 	defer w.h.closeAndCensus()
+	defer w.endOp()
 
 	nOps := 1 + s.Draw("ops", 2)
 	keys := []string{fmt.Sprintf("key-%d", s.Draw("key", 1<<16)), fmt.Sprintf("other-%d", s.Draw("key2", 1<<16))}
@@ -927,6 +1091,46 @@ func c06AddrSet(addrs [][]byte) []string {
 	return out
 }
 
+// c06DrawAddrs draws a host address set: a subset of the palette of one of
+// four classes (mixed, only loopback, only private + loopback, none).
+func c06DrawAddrs(s *sim.Sim, pal []ma.Multiaddr, sfx string, neverEmpty bool) []ma.Multiaddr {
+	var addrs []ma.Multiaddr
+	addrClass := s.Draw("addr-class"+sfx, 4)
+	if neverEmpty {
+		addrClass = 0
+	}
+	switch addrClass {
+	case 0: // mixed
+		rng := newSubRng(s, "addrs"+sfx)
+		for _, a := range pal {
+			if rng.Intn(2) == 0 && len(addrs) < 6 {
+				addrs = append(addrs, a)
+			}
+		}
+		if neverEmpty && len(addrs) == 0 {
+			addrs = pal[:1]
+		}
+	case 1: // only loopback
+		addrs = []ma.Multiaddr{pal[2], pal[5]}
+	case 2: // only private + loopback
+		addrs = []ma.Multiaddr{pal[1], pal[2], pal[6]}
+	default: // none at all
+	}
+	return addrs
+}
+
+// c06EmitAddrsUpdated emits the host's "local addresses updated" event on its
+// event bus and lets the subscribers process it.
+func c06EmitAddrsUpdated(s *sim.Sim, h *simhost.Host) {
+	em, err := h.RealBus().Emitter(new(event.EvtLocalAddressesUpdated))
+	if err != nil {
+		panic(err)
+	}
+	_ = em.Emit(event.EvtLocalAddressesUpdated{})
+	_ = em.Close()
+	s.Quiesce()
+}
+
 func runC06Provide(s *sim.Sim, optimistic, slowLookup bool) {
 	s.MaxSteps = 700
 	var c c06Cfg
@@ -963,44 +1167,30 @@ func runC06Provide(s *sim.Sim, optimistic, slowLookup bool) {
 		opts = append(opts, dht.AddressFilter(f))
 	}
 	w := c06Build(s, c, opts...)
+	w.prefix = "ap"
 	defer s.Finish()
 	defer w.h.closeAndCensus()
+	defer w.endOp()
 
 	// host addresses: a drawn subset of the palette (possibly empty)
 	pal := c06Palette(w.h.U)
-	var addrs []ma.Multiaddr
-	addrClass := s.Draw("addr-class", 4)
-	if slowLookup {
-		addrClass = 0
-	}
-	switch addrClass {
-	case 0: // mixed
-		rng := newSubRng(s, "addrs")
-		for _, a := range pal {
-			if rng.Intn(2) == 0 && len(addrs) < 6 {
-				addrs = append(addrs, a)
-			}
-		}
-		if slowLookup && len(addrs) == 0 {
-			addrs = pal[:1]
-		}
-	case 1: // only loopback
-		addrs = []ma.Multiaddr{pal[2], pal[5]}
-	case 2: // only private + loopback
-		addrs = []ma.Multiaddr{pal[1], pal[2], pal[6]}
-	default: // none at all
-	}
+	addrs := c06DrawAddrs(s, pal, "", slowLookup)
 	w.h.Host.SetAddrs(addrs)
-	want := addrs
-	if f := c06Filter(filt); f != nil {
-		want = f(addrs)
+	// want: the address filter applied to the addresses the host has now
+	filtered := func(addrs []ma.Multiaddr) []ma.Multiaddr {
+		want := addrs
+		if f := c06Filter(filt); f != nil {
+			want = f(addrs)
+		}
+		if len(want) == 0 {
+			s.Count("probe_all_addrs_filtered")
+		} else if len(want) < len(addrs) {
+			s.Count("probe_filter_dropped_some")
+		}
+		return want
 	}
+	want := filtered(addrs)
 	s.Summary["addrs"] = fmt.Sprintf("host=%d filter=%s advertised=%d optimistic=%v", len(addrs), c06FilterNames[filt], len(want), optimistic)
-	if len(want) == 0 {
-		s.Count("probe_all_addrs_filtered")
-	} else if len(want) < len(addrs) {
-		s.Count("probe_filter_dropped_some")
-	}
 
 	if optimistic {
 		w.feedEstimator()
@@ -1025,7 +1215,29 @@ func runC06Provide(s *sim.Sim, optimistic, slowLookup bool) {
 	if optimistic && !slowLookup {
 		nOps = 1 + s.Draw("ops", 4) // optimistic walks are short
 	}
+	addrChanges := 0
 	for i := 0; i < nOps && !s.Failed(); i++ {
+		if i > 0 && s.Chance("addr-change", 1, 2) {
+			// The host's addresses change between two provides (nothing of the
+			// previous provide is still computing its payload: every request it
+			// makes has reached the sender by the time it is quiescent). In
+			// some runs the host also announces the change on its event bus, in
+			// others the DHT is told nothing: what a provide advertises is
+			// defined by the host's addresses when it runs, not by events.
+			addrs = c06DrawAddrs(s, pal, fmt.Sprintf("-%d", i), slowLookup)
+			w.h.Host.SetAddrs(addrs)
+			want = filtered(addrs)
+			addrChanges++
+			announced := s.Chance("addr-event", 1, 2)
+			if announced {
+				c06EmitAddrsUpdated(s, w.h.Host)
+				s.Count("probe_addrs_changed_with_event")
+			} else {
+				s.Count("probe_addrs_changed_silently")
+			}
+			s.Tracef("host addresses changed: host=%d advertised=%d event=%v", len(addrs), len(want), announced)
+			s.Summary["addr-changes"] = addrChanges
+		}
 		content := s.Draw("content", 1<<16)
 		mkKey := func(j int) mh.Multihash {
 			sum, err := mh.Sum([]byte(fmt.Sprintf("content-%d-%d-%d", i, content, j)), mh.SHA2_256, -1)
@@ -1062,6 +1274,9 @@ func runC06Provide(s *sim.Sim, optimistic, slowLookup bool) {
 			return
 		}
 		inflight := len(s.ParkedKind("rpc"))
+		if addrChanges > 0 {
+			s.Count("probe_provide_after_addr_change")
+		}
 		w.checkProvide(ob, sum, want, optimistic, estReady, inflight)
 		if s.Failed() {
 			return
@@ -1250,8 +1465,10 @@ func runC06Corrective(s *sim.Sim) {
 	s.MaxSteps = 700
 	c := c06GenCfg(s, 1, 6)
 	w := c06Build(s, c)
+	w.prefix = "cp"
 	defer s.Finish()
 	defer w.h.closeAndCensus()
+	defer w.endOp()
 	u := w.h.U
 
 	key := fmt.Sprintf("key-%d", s.Draw("key", 1<<16))
